@@ -28,11 +28,78 @@ REL_PLANS = {
 }
 
 
+def _resolves_to(f, expr, target_txt, at):
+    """expr is `target_txt` or a local name whose only definition is `target_txt`."""
+    if A.norm(expr) == target_txt:
+        return True
+    if isinstance(expr, ast.Name):
+        defs = [s for s in A.walk_stmts(f.node.body) if isinstance(s, ast.Assign) and any(isinstance(t, ast.Name) and t.id == expr.id for t in s.targets)]
+        return len(defs) == 1 and A.norm(defs[0].value) == target_txt
+    return False
+
+
+def d1_pseudo_family(ctx, repo, st):
+    """A pseudo positioner and its pseudo axes are one device family: the reset commands the PARENT only
+    (reset() skips children of coupled parents), so the first stash of ANY member must stash the whole
+    family - otherwise a later set of a sibling is 'unseen', stashes again, and overwrites the parent's
+    initial position with a position read after the first move."""
+    rule = "C24.D1-pseudo-family-stashed-together"
+    params = [a.arg for a in st.node.args.args]
+    ctx.require(len(params) == 3, f"{st.key}: (obj, initial_positions, coupled_parents)")
+    obj, store, coupled = params
+    # family loops: for c, p in zip(X.pseudo_positioners, V): store[c] = p
+    fam = []
+    for lp in A.walk_stmts(st.node.body):
+        if isinstance(lp, ast.For) and isinstance(lp.iter, ast.Call) and A.call_name(lp.iter) == "zip" and len(lp.iter.args) == 2 and \
+                isinstance(lp.target, ast.Tuple) and len(lp.target.elts) == 2 and A.norm(lp.iter.args[0]).endswith(".pseudo_positioners"):
+            c, p = (A.norm(e) for e in lp.target.elts)
+            if any(A.norm(b) == f"{store}[{c}] = {p}" for b in lp.body):
+                fam.append((A.norm(lp.iter.args[0])[: -len(".pseudo_positioners")], lp.iter.args[1], lp))
+    par = A.parents(st.node)
+
+    def guard_of(node):
+        n = node
+        while n in par:
+            n = par[n]
+            if isinstance(n, ast.If):
+                return n
+        return None
+
+    # (a) the parent itself is set: children stashed from its own setpoint
+    own = [x for x in fam if x[0] == obj]
+    ok = len(own) == 1 and guard_of(own[0][2]) is not None and A.norm(guard_of(own[0][2]).test) == f"{obj} in {coupled}" and \
+        any(A.norm(s) == f"{store}[{obj}] = {A.norm(own[0][1])}" for s in A.walk_stmts(st.node.body))
+    ctx.ob(rule, cname(st, None, "setting a coupled parent stashes every pseudo axis from the same setpoint"), ok,
+           "" if ok else "the pseudo axes of a directly moved parent are no longer stashed with it", nontrivial=True, where=where(st, st.node))
+    # (b) a pseudo axis is set: parent and every sibling stashed from the parent's position
+    pdefs = [s for s in A.walk_stmts(st.node.body) if isinstance(s, ast.Assign) and A.norm(s.value) == f"{obj}.parent" and isinstance(s.targets[0], ast.Name)]
+    pname = pdefs[0].targets[0].id if pdefs else f"{obj}.parent"
+    sib = [x for x in fam if x[0] == pname]
+    g = guard_of(sib[0][2]) if sib else None
+    ok = len(sib) == 1 and g is not None and f"{pname} in {coupled}" in A.norm(g.test) and _resolves_to(st, sib[0][1], f"{pname}.position", sib[0][2])
+    ctx.ob(rule, cname(st, None, "setting one pseudo axis stashes every sibling axis from the parent's position"), ok,
+           "" if ok else "siblings of a moved pseudo axis are not stashed: a later set of a sibling re-stashes the parent after it has moved, "
+           "so the reset returns to the wrong place", nontrivial=True, where=where(st, st.node))
+    pst = [s for s in (A.walk_stmts(g.body) if g is not None else []) if isinstance(s, ast.Assign) and A.norm(s.targets[0]) == f"{store}[{pname}]"]
+    if g is None:
+        g = next((x for x in A.walk_stmts(st.node.body) if isinstance(x, ast.If) and f"{pname} in {coupled}" in A.norm(x.test)), None)
+        pst = [s for s in (A.walk_stmts(g.body) if g is not None else []) if isinstance(s, ast.Assign) and A.norm(s.targets[0]) == f"{store}[{pname}]"]
+    ok = len(pst) == 1 and _resolves_to(st, pst[0].value, f"{pname}.position", pst[0])
+    ctx.ob(rule, cname(st, None, "the parent is stashed at its own position, the value the siblings are split from"), ok,
+           "" if ok else "the parent's initial position is not stashed with its axes", where=where(st, st.node))
+    # (c) reset commands the parent only -> relies on (a)/(b)
+    rs = repo.func(PP, "reset_positions_wrapper.reset")
+    sk = [s for s in A.walk_stmts(rs.node.body) if isinstance(s, ast.If) and any(isinstance(b, ast.Continue) for b in s.body)]
+    ok = all(A.norm(s.test).endswith(f".parent in {coupled}") for s in sk)
+    ctx.ob(rule, cname(rs, None, "the reset skips only children of coupled parents (moved through the parent)"), ok,
+           "" if ok else f"reset skips devices under {[A.norm(s.test) for s in sk]}", where=where(rs, rs.node))
+
+
 def run(ctx):
     repo = ctx.repo
     ctx.explanation = (
         "Decided: D1 relative_set_wrapper rewrites a 'set' on a stashed device to initial + offset, stashes the initial position before "
-        "the first set of an eligible device, and applies the read-insertion before the rewrite; D2 reset_positions_wrapper's final plan "
+        "the first set of an eligible device (a pseudo positioner's parent and axes are stashed together, since the reset moves the parent only), and applies the read-insertion before the rewrite; D2 reset_positions_wrapper's final plan "
         "sets every stashed device back to its stashed value and waits, and is the final plan of finalize_wrapper (C22/C23); D3 every "
         "rel_* plan wraps its absolute sibling in reset_positions_decorator(M) outside relative_set_decorator(M) with the same device "
         "list; rel_set / mvr apply the relative wrapper; D4 no swapped arguments on these calls. Not decided: arithmetic on device positions.")
@@ -62,6 +129,7 @@ def run(ctx):
     st = repo.func(PP, "__read_and_stash_a_motor")
     ok = any(A.norm(s) == "initial_positions[obj] = setpoint" for s in A.walk_stmts(st.node.body))
     ctx.ob("C24.D1-stash-before-first-set", cname(st, None, "initial_positions[obj] = the located / read setpoint"), ok, "" if ok else "stash target changed", where=where(st, st.node))
+    d1_pseudo_family(ctx, repo, st)
     txt = A.norm(rw.node)
     i1, i2 = txt.find("plan = plan_mutator(plan, insert_reads)"), txt.find("plan = msg_mutator(plan, rewrite_pos)")
     ok = 0 <= i1 < i2
@@ -140,6 +208,9 @@ CLAIM = {
 P = "preprocessors.py"
 L = "plans.py"
 MUTANTS = [
+    ("siblings of a pseudo axis not stashed", [(P, "        initial_positions[parent] = parent_pos\n        for c, p in zip(parent.pseudo_positioners, parent_pos):\n            initial_positions[c] = p", "        initial_positions[parent] = parent_pos")], "C24.D1-pseudo"),
+    ("children of a moved parent not stashed", [(P, "    if obj in coupled_parents:\n        for c, p in zip(obj.pseudo_positioners, setpoint):\n            initial_positions[c] = p", "    if obj in coupled_parents:\n        pass")], "C24.D1-pseudo"),
+    ("parent stashed from the axis' setpoint", [(P, "        initial_positions[parent] = parent_pos\n", "        initial_positions[parent] = setpoint\n")], "C24.D1-pseudo"),
     ("offset subtracted", [(P, "            abs_pos = initial_positions[msg.obj] + rel_pos", "            abs_pos = initial_positions[msg.obj] - rel_pos")], "C24.D1"),
     ("rel_scan loses its reset", [(L, "    @bpp.reset_positions_decorator(motors)\n    @bpp.relative_set_decorator(motors)\n    def inner_rel_scan():", "    @bpp.relative_set_decorator(motors)\n    def inner_rel_scan():")], "C24.D3"),
     ("decorators swapped in rel_grid_scan", [(L, "    @bpp.reset_positions_decorator(motors)\n    @bpp.relative_set_decorator(motors)\n    def inner_rel_grid_scan():", "    @bpp.relative_set_decorator(motors)\n    @bpp.reset_positions_decorator(motors)\n    def inner_rel_grid_scan():")], "C24.D3"),
